@@ -309,3 +309,13 @@ func (r *Report) writeEvidence(o finishOpts, evDir string, total, discharged, no
 	b, _ := json.MarshalIndent(ev, "", " ")
 	os.WriteFile(filepath.Join(evDir, r.Property+".json"), b, 0o644)
 }
+
+// Assume records an assumption once.
+func (r *Report) Assume(a string) {
+	for _, x := range r.Assumptions {
+		if x == a {
+			return
+		}
+	}
+	r.Assumptions = append(r.Assumptions, a)
+}
